@@ -81,6 +81,11 @@ PreInc == Step(val + One, val + One)
 PostInc == Step(val + One, val)
 PreDec == Step(val - One, val - One)
 PostDec == Step(val - One, val)
+\* Observable b(std::move(a)) / b = std::move(a): value and comparator move along, nobody is notified. Only without
+\* subscribers: a Subscription handle keeps pointing at the Subject inside the OLD object, so handles do not survive a
+\* move (spec note N8) and a history that moves a subscribed Observable and then uses a handle is not a valid one
+MoveConstruct == subs = {} /\ notes' = {} /\ ret' = val /\ UNCHANGED <<val, subs>>
+MoveAssign == subs = {} /\ notes' = {} /\ ret' = val /\ UNCHANGED <<val, subs>>
 Subscribe(s) == s \in {1, 2} \ subs /\ subs' = subs \cup {s} /\ notes' = {} /\ ret' = val /\ UNCHANGED val
 Unsubscribe(s) == s \in subs /\ subs' = subs \ {s} /\ notes' = {} /\ ret' = val /\ UNCHANGED val
 
@@ -92,7 +97,7 @@ Next == \/ \E v \in Values : Assign(v)
         \/ AssignBig \/ DivZero \/ \E d \in {1, 2} : AddAbsorbed(d)
         \/ \E s \in Strs : Concat(s)
         \/ \E f \in {"id", "inc", "zero"} : Apply(f)
-        \/ PreInc \/ PostInc \/ PreDec \/ PostDec
+        \/ PreInc \/ PostInc \/ PreDec \/ PostDec \/ MoveConstruct \/ MoveAssign
         \/ \E s \in {1, 2} : Subscribe(s) \/ Unsubscribe(s)
 Spec == Init /\ [][Next]_vars
 
